@@ -121,6 +121,9 @@ SERVICE_EDGES = [
     ("a method called Size", "service S @ 1 {\n    method Size(A) @ 0 returns B,\n}"),
     ("a service called Size", "service Size @ 1 {\n    method m(A) @ 0 returns B,\n}"),
     ("payload wrappers that coincide", "struct a {\n    z @ 0: u8,\n}\nservice S @ 1 {\n    method m(A) @ 0 returns B,\n    method n(a) @ 1 returns B,\n}"),
+    ("a service name with two capitals", "service MotorControl @ 1 {\n    method m(A) @ 0 returns B,\n}"),
+    ("a service name in snake case", "service motor_control @ 1 {\n    method m(A) @ 0 returns B,\n}"),
+    ("payload names with two capitals and underscores", "struct WheelSpeed {\n    v @ 0: u8,\n}\nstruct wheel_cmd {\n    v @ 0: u8,\n}\nservice S @ 1 {\n    method m(WheelSpeed) @ 0 returns wheel_cmd,\n}"),
     ("two services with one id", "service S @ 1 {\n    method m(A) @ 0 returns B,\n}\nservice T @ 1 {\n    method k(B) @ 3 returns A,\n}"),
 ]
 
@@ -159,7 +162,9 @@ def service_edge_probe(rep):
                     f.write(contents)
             src = os.path.join(d_, "t.cpp")
             with open(src, "w") as f:
-                f.write('#include "fcp.h"\nint main() { return 0; }\n')
+                # fcp.h, then the rpc layer in the order the project's own test includes it
+                svc = sorted(n for n in o["files"] if n.endswith("_client.h") or n.endswith("_server.h"))
+                f.write('#include "fcp.h"\n#include "rpc.h"\n' + "".join(f'#include "{n}"\n' for n in svc) + "int main() { return 0; }\n")
             p = subprocess.run(["g++", "-std=c++17", "-O0", "-w", "-fsyntax-only", "-I", str(VENDOR), "-I", d_, src],
                                stdout=subprocess.PIPE, stderr=subprocess.STDOUT, text=True, timeout=600)
         finally:
